@@ -95,6 +95,78 @@ CLAIMED = {
         technique="Coq proof (case analysis of every exception path of the mirrored control flow) + differential "
                   "correspondence on a malformed stream",
     ),
+    'C01': dict(
+        text='Machine-checked (Coq): the builder model equals the fragments dumped from /repo now; every fragment word and every random-body instruction is a legal instruction of the variant (all operands); callee draws and offset choices are never empty. Partial: the whole-image clean-return theorem is stated, not proved; every implementation image of the run is executed on the extracted reference machine with exact region mapping (fetch/illegal/misaligned/unmapped/domain faults monitored).',
+        design='4 C01',
+        note='Trusted: Coq kernel (vm_compute), no axioms; gen_tables.py (fragments and tables dumped from /repo at run time); extraction; Machine.v/Isa.v hand-written reference semantics; Generator.v/Builder.v mirror the Python generators and are tied byte-for-byte by the generator correspondence over decision scripts (ScriptRandom); the whole-image composition (Layer A/B of DESIGN 3.6) is stated as `_statement` and NOT yet proved: the theorems proved are `_partial` component theorems; whole images are judged on the extracted reference machine (a test of the missing clause, not a proof).',
+        technique='Coq proof of component theorems (regenerated fragments by computation, stub execution on the reference machine, generator arithmetic) + byte-exact generator correspondence + judgement of implementation images on the extracted reference machine',
+    ),
+    'C02': dict(
+        text='Machine-checked (Coq): every prologue/epilogue and trampoline pair of the five variants is frame-symmetric (one allocation, equal release, same (register, slot) pairs, slots inside the frame) by computation on the regenerated fragments; reserved registers are excluded from random destinations; call stubs preserve every register but ra and do not touch memory (all offsets/addresses/states). Partial: whole-run register restoration, frame ownership and the stack bound are judged on the reference machine (final-vs-initial registers with arbitrary initial contents, per-access frame monitor, min sp vs call-graph bound).',
+        design='4 C02',
+        note='Trusted: Coq kernel (vm_compute), no axioms; gen_tables.py (fragments and tables dumped from /repo at run time); extraction; Machine.v/Isa.v hand-written reference semantics; Generator.v/Builder.v mirror the Python generators and are tied byte-for-byte by the generator correspondence over decision scripts (ScriptRandom); the whole-image composition (Layer A/B of DESIGN 3.6) is stated as `_statement` and NOT yet proved: the theorems proved are `_partial` component theorems; whole images are judged on the extracted reference machine (a test of the missing clause, not a proof).',
+        technique='Coq proof of component theorems (regenerated fragments by computation, stub execution on the reference machine, generator arithmetic) + byte-exact generator correspondence + judgement of implementation images on the extracted reference machine',
+    ),
+    'C03': dict(
+        text='Machine-checked (Coq): for ALL data sizes >= 8, draws and widths the offset is non-negative, aligned, fits the immediate and the access ends inside the rounded data image (bound tight); the alignment looked up from the regenerated ALIGNMENT/name lists is the access width; the data register is never a random destination; the shadow pointer moves only in matched 8-byte steps. Partial: lifting to every body of every image is stated; every memory instruction of every implementation image is checked statically (spec decoder) and dynamically (exact data region).',
+        design='4 C03',
+        note='Trusted: Coq kernel (vm_compute), no axioms; gen_tables.py (fragments and tables dumped from /repo at run time); extraction; Machine.v/Isa.v hand-written reference semantics; Generator.v/Builder.v mirror the Python generators and are tied byte-for-byte by the generator correspondence over decision scripts (ScriptRandom); the whole-image composition (Layer A/B of DESIGN 3.6) is stated as `_statement` and NOT yet proved: the theorems proved are `_partial` component theorems; whole images are judged on the extracted reference machine (a test of the missing clause, not a proof).',
+        technique='Coq proof of component theorems (regenerated fragments by computation, stub execution on the reference machine, generator arithmetic) + byte-exact generator correspondence + judgement of implementation images on the extracted reference machine',
+    ),
+    'C04': dict(
+        text='Machine-checked (Coq): fragment lengths equal the sizes Method.__init__/the generators assume; call-stub slots are pairwise disjoint and inside the body (all sizes); the patch population has body//call_size slots; call stubs and switch jumps land exactly on pc+offset. Partial: the tiling theorem over whole images is stated; tiling, true addresses, call/switch/trampoline targets, padding length and refusal-without-files are judged on every implementation image.',
+        design='4 C04',
+        note='Trusted: Coq kernel (vm_compute), no axioms; gen_tables.py (fragments and tables dumped from /repo at run time); extraction; Machine.v/Isa.v hand-written reference semantics; Generator.v/Builder.v mirror the Python generators and are tied byte-for-byte by the generator correspondence over decision scripts (ScriptRandom); the whole-image composition (Layer A/B of DESIGN 3.6) is stated as `_statement` and NOT yet proved: the theorems proved are `_partial` component theorems; whole images are judged on the extracted reference machine (a test of the missing clause, not a proof).',
+        technique='Coq proof of component theorems (regenerated fragments by computation, stub execution on the reference machine, generator arithmetic) + byte-exact generator correspondence + judgement of implementation images on the extracted reference machine',
+    ),
+    'C05': dict(
+        text="Machine-checked (Coq): a switch case jumps to its method iff the hit register holds its number and otherwise falls to the next case, for ALL admissible register pairs and states; PIC call stubs load exactly the drawn hit case into the PIC's own register; the case count is capped by the remaining methods. Partial: method count / call-site counts / each-element-once are judged statically and on the reference machine's entry trace (including non-default PIC registers and first/last hit cases forced).",
+        design='4 C05',
+        note='Trusted: Coq kernel (vm_compute), no axioms; gen_tables.py (fragments and tables dumped from /repo at run time); extraction; Machine.v/Isa.v hand-written reference semantics; Generator.v/Builder.v mirror the Python generators and are tied byte-for-byte by the generator correspondence over decision scripts (ScriptRandom); the whole-image composition (Layer A/B of DESIGN 3.6) is stated as `_statement` and NOT yet proved: the theorems proved are `_partial` component theorems; whole images are judged on the extracted reference machine (a test of the missing clause, not a proof).',
+        technique='Coq proof of component theorems (regenerated fragments by computation, stub execution on the reference machine, generator arithmetic) + byte-exact generator correspondence + judgement of implementation images on the extracted reference machine',
+    ),
+    'C06': dict(
+        text='Machine-checked (Coq): callees are drawn only from buckets of strictly smaller depth whenever the depth dictionary is consistent, and registration preserves consistency (all histories); switch compare-branches and jumps go forward. Partial: acyclicity over whole images and count equality are judged (call graph recovered from bytes; executed instruction count == static count from the call DAG and selected PIC cases).',
+        design='4 C06',
+        note='Trusted: Coq kernel (vm_compute), no axioms; gen_tables.py (fragments and tables dumped from /repo at run time); extraction; Machine.v/Isa.v hand-written reference semantics; Generator.v/Builder.v mirror the Python generators and are tied byte-for-byte by the generator correspondence over decision scripts (ScriptRandom); the whole-image composition (Layer A/B of DESIGN 3.6) is stated as `_statement` and NOT yet proved: the theorems proved are `_partial` component theorems; whole images are judged on the extracted reference machine (a test of the missing clause, not a proof).',
+        technique='Coq proof of component theorems (regenerated fragments by computation, stub execution on the reference machine, generator arithmetic) + byte-exact generator correspondence + judgement of implementation images on the extracted reference machine',
+    ),
+    'C07': dict(
+        text='Machine-checked (Coq): every call / address stub is position independent - its theorem quantifies over the address A and the whole register file; fragments address memory through sp / the shadow pointer only. Partial: whole-image relocation invariance is judged by twin runs of the reference machine at two random layouts (fetched offsets and data offset/width sequences compared).',
+        design='4 C07',
+        note='Trusted: Coq kernel (vm_compute), no axioms; gen_tables.py (fragments and tables dumped from /repo at run time); extraction; Machine.v/Isa.v hand-written reference semantics; Generator.v/Builder.v mirror the Python generators and are tied byte-for-byte by the generator correspondence over decision scripts (ScriptRandom); the whole-image composition (Layer A/B of DESIGN 3.6) is stated as `_statement` and NOT yet proved: the theorems proved are `_partial` component theorems; whole images are judged on the extracted reference machine (a test of the missing clause, not a proof).',
+        technique='Coq proof of component theorems (regenerated fragments by computation, stub execution on the reference machine, generator arithmetic) + byte-exact generator correspondence + judgement of implementation images on the extracted reference machine',
+    ),
+    'C09': dict(
+        text='Machine-checked (Coq): in both RIMI variants prologues/epilogues (and RIMI-full trampolines) never put ra on the main stack, push/pop it through the shadow pointer which moves only in matched 8-byte steps; ra and the shadow pointer are not random destinations; call stubs do not read memory. Partial: LIFO matching, capacity and corruption independence are judged on the reference machine (shadow monitor; random overwrites of all JIT frames every few steps with trace comparison).',
+        design='4 C09',
+        note='Trusted: Coq kernel (vm_compute), no axioms; gen_tables.py (fragments and tables dumped from /repo at run time); extraction; Machine.v/Isa.v hand-written reference semantics; Generator.v/Builder.v mirror the Python generators and are tied byte-for-byte by the generator correspondence over decision scripts (ScriptRandom); the whole-image composition (Layer A/B of DESIGN 3.6) is stated as `_statement` and NOT yet proved: the theorems proved are `_partial` component theorems; whole images are judged on the extracted reference machine (a test of the missing clause, not a proof).',
+        technique='Coq proof of component theorems (regenerated fragments by computation, stub execution on the reference machine, generator arithmetic) + byte-exact generator correspondence + judgement of implementation images on the extracted reference machine',
+    ),
+    'C10': dict(
+        text="Machine-checked (Coq): interpreter prologue/epilogue contain no custom instruction; retdom is the last and only domain instruction of the return trampoline; interpreter call stubs ending in chdom, executed in domain 0, enter domain 1 exactly at the call trampoline (all offsets/addresses/states). Partial: alternation and duplicated-access discipline over whole runs are judged by the reference machine's domain monitor and a static scan of int.bin/jit.bin.",
+        design='4 C10',
+        note='Trusted: Coq kernel (vm_compute), no axioms; gen_tables.py (fragments and tables dumped from /repo at run time); extraction; Machine.v/Isa.v hand-written reference semantics; Generator.v/Builder.v mirror the Python generators and are tied byte-for-byte by the generator correspondence over decision scripts (ScriptRandom); the whole-image composition (Layer A/B of DESIGN 3.6) is stated as `_statement` and NOT yet proved: the theorems proved are `_partial` component theorems; whole images are judged on the extracted reference machine (a test of the missing clause, not a proof).',
+        technique='Coq proof of component theorems (regenerated fragments by computation, stub execution on the reference machine, generator arithmetic) + byte-exact generator correspondence + judgement of implementation images on the extracted reference machine',
+    ),
+    'C11': dict(
+        text='Machine-checked (Coq): every FIXER epilogue ends with cfiret/beq/ecall/ret; a tagged call registers EXACTLY the return address the following jalr writes (method and PIC stubs, all offsets/addresses/states); the call trampoline tags before jumping. Partial: untampered runs (trap never reached, CFI stack empty at exit) and tamper runs (overwrite of a live saved-ra slot traps) are judged on the reference machine.',
+        design='4 C11',
+        note='Trusted: Coq kernel (vm_compute), no axioms; gen_tables.py (fragments and tables dumped from /repo at run time); extraction; Machine.v/Isa.v hand-written reference semantics; Generator.v/Builder.v mirror the Python generators and are tied byte-for-byte by the generator correspondence over decision scripts (ScriptRandom); the whole-image composition (Layer A/B of DESIGN 3.6) is stated as `_statement` and NOT yet proved: the theorems proved are `_partial` component theorems; whole images are judged on the extracted reference machine (a test of the missing clause, not a proof).',
+        technique='Coq proof of component theorems (regenerated fragments by computation, stub execution on the reference machine, generator arithmetic) + byte-exact generator correspondence + judgement of implementation images on the extracted reference machine',
+    ),
+    'C08': dict(
+        text='Machine-checked (Coq, for every seed->stream map and global state): constructing a generator is pure, a generation leaves module-level state unchanged, the three front-ends yield the same files, and files do not depend on the history of earlier generations. PARTIAL by nature: cross-process determinism of random.seed and absence of other entropy sources are runtime facts exercised by the front-ends slice (fresh processes, python -m gigue subprocesses, three hash seeds, histories incl. failing generations, deep snapshot of module-level state) and by script accounting.',
+        design='4 C08',
+        note='Trusted: Coq kernel, no axioms; CPython random.seed determinism; interpreter hash randomisation / environment outside the model (partial); Generator.v tied by the generator correspondence.',
+        technique='Coq proof over an explicit process-state model + differential runs of the three front-ends across processes, hash seeds and histories',
+    ),
+    'C16': dict(
+        text="Machine-checked (Coq): every method/PIC record is the (address, size, calls, depth / cases, case list) of the element it was built from; totals equal the element counts; both means are one binary64 division of exact integer sums. The records slice drives Runner.generate_binary for every isolation solution and the shipped presets, re-derives every record from bin/jit.bin with the spec decoder, re-runs the recorded seed and compares with the model's Records.",
+        design='4 C16',
+        note="Trusted: Coq kernel, no axioms; Records.v mirrors runner.py:231-295 (tied by correspondence); 'matches the binary' additionally needs C04's tiling, which for whole images rests on the generator correspondence; occupation/depth means are outside the property.",
+        technique='Coq proof (structural) + differential correspondence + independent re-derivation of the records from the emitted bytes',
+    ),
 }
 
 NOT_YET = "check under construction in this round (see DESIGN.md section 4); not yet claimed"
